@@ -57,7 +57,7 @@ impl Txn {
             date,
             effective_date: None,
             code: None,
-            payee: payee.to_string(),
+            payee: one_line(payee),
             comments: Vec::new(),
             dest_account: None,
             clear_state: None,
@@ -78,17 +78,23 @@ impl Txn {
     }
 
     pub fn code_option<'a>(&'a mut self, code: Option<&str>) -> &'a mut Txn {
-        self.code = code.map(str::to_string);
+        self.code = code.map(one_line);
         self
     }
 
     pub fn code<'a>(&'a mut self, code: &str) -> &'a mut Txn {
-        self.code = Some(code.to_string());
+        self.code = Some(one_line(code));
         self
     }
 
     pub fn add_comment(&mut self, comment: String) -> &mut Txn {
-        self.comments.push(comment);
+        // A comment in Ledger format covers one line, so each line becomes a comment.
+        self.comments.extend(
+            comment
+                .split(['\r', '\n'])
+                .filter(|x| !x.trim().is_empty())
+                .map(str::to_string),
+        );
         self
     }
 
@@ -162,7 +168,7 @@ impl Txn {
             commodity: amount.commodity.clone(),
         });
         self.charges.push(Charge {
-            payee: payee.to_string(),
+            payee: one_line(payee),
             amount,
         });
         Ok(self)
@@ -170,7 +176,7 @@ impl Txn {
 
     pub fn add_charge<'a>(&'a mut self, payee: &str, amount: OwnedAmount) -> &'a mut Txn {
         self.charges.push(Charge {
-            payee: payee.to_string(),
+            payee: one_line(payee),
             amount,
         });
         self
@@ -276,6 +282,17 @@ impl Txn {
             ..syntax::Transaction::new(self.date, &self.payee)
         })
     }
+}
+
+/// Joins the lines of the given text with a space.
+/// Payee or code can't contain line breaks in Ledger format,
+/// otherwise the rest would be read as another line of the transaction.
+fn one_line(s: &str) -> String {
+    s.split(['\r', '\n'])
+        .map(str::trim)
+        .filter(|x| !x.is_empty())
+        .collect::<Vec<_>>()
+        .join(" ")
 }
 
 /// Pair of commodity, used for rate computation.
